@@ -137,6 +137,11 @@ mzd_t *mzd_from_png(const char *fn, int verbose) {
     goto from_png_destroy_read_struct;
   }
 
+  if (bit_depth != 1) {
+    if (verbose) printf("only images with bit depth 1 are supported.\n");
+    goto from_png_destroy_read_struct;
+  }
+
   A                      = mzd_init(m, n);
   const word bitmask_end = A->high_bitmask;
   png_bytep row          = m4ri_mm_calloc(sizeof(char), n / 8 + 1);
